@@ -185,6 +185,15 @@ class Track:
                 self.output_device.note_off(note_off.note, note_off.channel)
                 self.note_offs.remove(note_off)
 
+    def release_notes(self):
+        """
+        Immediately send note-offs for any notes that are still sounding.
+        Called when the track is removed from its timeline, so that no notes are left hanging.
+        """
+        for note_off in self.note_offs:
+            self.output_device.note_off(note_off.note, note_off.channel)
+        self.note_offs = []
+
     def tick(self):
         """
         Step forward one tick.
